@@ -243,6 +243,8 @@ def readonly(ctx, R="R-C18-readonly"):
         bad = [w for w in ws if False in w.flags]
         ctx.check(not bad, R, f, bad[0].stmt if bad else f.node, "%s.apply writes through the input only when in_place is true" % name,
                   "%s.apply can modify the caller's array with in_place=False (%s)" % (name, ", ".join(sorted({w.how for w in bad}))), robust=True)
+        from ..eff import check_result_fresh
+        check_result_fresh(ctx, R, f)
         ctx.check(len(ws) >= 1, R, f, f.node, "%s.apply does operate in place when allowed (the in_place flag is honoured)" % name,
                   "%s.apply never works in place; in_place=True would be ignored" % name, robust=True)
 
